@@ -175,7 +175,9 @@ func judgeSeq(pats []*ref.Pattern, src string, run engineRun, added ...ref.Impor
 	if run.Err != "" && !strings.HasPrefix(run.Err, "patch rejected") && rw.St.Sites > 0 {
 		// the reference's expected tree may not be printable as valid Go (a call in a type position, a
 		// composite literal exposed in a control clause): then an error report is what C07 demands
-		if ok, _ := ref.Printable(exp); !ok {
+		ok1, _ := ref.Printable(exp)
+		ok2, _ := ref.PrintableAlt(exp)
+		if !ok1 || !ok2 {
 			v.Inconcl = "expected rewrite is not printable as valid Go and the engine reported an error"
 			return v
 		}
@@ -216,10 +218,12 @@ func judgeSeq(pats []*ref.Pattern, src string, run engineRun, added ...ref.Impor
 	if !printerLoses && rw.St.Sites > 0 {
 		// go/printer cannot represent every tree (a channel type as the operand of an index expression, ...):
 		// if printing the expected tree and parsing it back gives another tree, no output could have matched
-		if ok, txt := ref.Printable(exp0); ok {
-			if back, _, _, err := ref.ParseFile([]byte(txt), true); err == nil && !ref.Matches(back.Tree, exp) {
-				v.Inconcl = "go/printer cannot represent the expected tree"
-				return v
+		for _, pr := range []func(*ref.N) (bool, string){ref.Printable, ref.PrintableAlt} {
+			if ok, txt := pr(exp0); ok {
+				if back, _, _, err := ref.ParseFile([]byte(txt), true); err == nil && !ref.Matches(back.Tree, exp) {
+					v.Inconcl = "go/printer cannot represent the expected tree"
+					return v
+				}
 			}
 		}
 	}
@@ -271,13 +275,19 @@ func replayFiles(patchText, src, out string) map[string]string {
 // prints as a conversion "[]at(...)": no output of the engine could match such an expectation.
 func printerRepresents(decl *ref.N) bool {
 	file := &ref.N{Kind: "File", Kids: []*ref.N{{Kind: "leaf", Leaf: "p"}, decl}}
-	ok, txt := ref.Printable(file)
-	if !ok {
-		return false
+	// with the first and with the last alternative of every don't-care node (nested instances left alone / rewritten)
+	for _, pr := range []func(*ref.N) (bool, string){ref.Printable, ref.PrintableAlt} {
+		ok, txt := pr(file)
+		if !ok {
+			return false
+		}
+		back, _, _, err := ref.ParseFile([]byte(txt), true)
+		if err != nil || len(back.Decls) != 1 {
+			return false
+		}
+		if !ref.Matches(back.Decls[0], ref.StripParens(decl)) {
+			return false
+		}
 	}
-	back, _, _, err := ref.ParseFile([]byte(txt), true)
-	if err != nil || len(back.Decls) != 1 {
-		return false
-	}
-	return ref.Matches(back.Decls[0], ref.StripParens(decl))
+	return true
 }
